@@ -65,12 +65,22 @@ def civl(t):
 # Building the Coq development and running case files
 
 def make_coq(targets=None, timeout=1500):
-    """Incremental full .vo build (never -vos).  Returns (ok, output)."""
+    """Incremental full .vo build (never -vos).  Returns (ok, output, seconds).
+    The Makefile is generated from the files of _CoqProject that exist, so a listed but missing
+    file only breaks what depends on it."""
     t0 = time.time()
-    if not (COQ / "Makefile").exists():
-        subprocess.run(["coq_makefile", "-f", "_CoqProject", "-o", "Makefile"], cwd=COQ,
+    proj = (COQ / "_CoqProject").read_text().splitlines()
+    kept = [l for l in proj if not (l.strip().endswith(".v") and not l.startswith("-")
+                                    and not (COQ / l.strip()).exists())]
+    build_proj = COQ / "_CoqProject.build"
+    text = "\n".join(kept) + "\n"
+    lock = ["flock", str(COQ / ".lock")]
+    if (not build_proj.exists()) or build_proj.read_text() != text or not (COQ / "Makefile").exists():
+        build_proj.write_text(text)
+        subprocess.run(lock + ["coq_makefile", "-f", "_CoqProject.build", "-o", "Makefile"], cwd=COQ,
                        check=True, capture_output=True)
-    cmd = ["flock", str(COQ / ".lock"), "timeout", str(timeout), "make", "-j", str(NCPU)]
+    # -k: a file that fails to build must only affect the properties whose theorem file depends on it
+    cmd = lock + ["timeout", str(timeout), "make", "-k", "-j", str(NCPU)]
     if targets:
         cmd += targets
     p = subprocess.run(cmd, cwd=COQ, capture_output=True, text=True)
@@ -91,7 +101,7 @@ def eval_cases(prop: str, header: str, case_type: str, cases: list[str], funcs: 
     """Write the cases into shards, evaluate `fails f cases` for every f in funcs with
     vm_compute inside coqc, and return {f: sorted list of global failing indices}.
     Raises RuntimeError if coqc rejects a shard (that is a harness/model build problem)."""
-    d = BUILD / prop
+    d = BUILD / prop / f"p{os.getpid()}"     # per process: concurrent runs do not clash
     d.mkdir(parents=True, exist_ok=True)
     for old in d.glob(f"{tag}_*"):
         old.unlink()
@@ -131,6 +141,8 @@ def eval_cases(prop: str, header: str, case_type: str, cases: list[str], funcs: 
         aux = p.parent / ("." + p.stem + ".aux")
         if aux.exists():
             aux.unlink()
+        if not os.environ.get("VERIF_KEEP_CASES"):
+            p.unlink()
     return res
 
 
@@ -143,7 +155,7 @@ def _oz(s):
 
 def eval_term(prop: str, header: str, term: str):
     """Evaluate one term of type list ivl in Coq and parse it (used for replays)."""
-    d = BUILD / prop
+    d = BUILD / prop / f"p{os.getpid()}"
     d.mkdir(parents=True, exist_ok=True)
     p = d / "term_eval.v"
     p.write_text(header + f"\nEval vm_compute in ({term}).\n")
@@ -204,8 +216,7 @@ def scan_forbidden():
     bad = []
     for p in project_files():
         if not p.exists():
-            bad.append(f"{p.relative_to(COQ)}: listed in _CoqProject but missing")
-            continue
+            continue      # a missing file fails the build of whatever depends on it; not a forbidden construct
         text = re.sub(r"\(\*.*?\*\)", "", p.read_text(), flags=re.S)
         for n, line in enumerate(text.splitlines(), 1):
             if FORBIDDEN.search(line):
